@@ -44,6 +44,16 @@ pub fn plan(seed: u64, nf: usize, nc: usize) -> Plan {
             sets: vec![NamedSet { name: b"m".to_vec(), vals: if k % 2 == 0 { vec![Val::bytes(svals[k % 5])] } else { vec![Val::bytes(b"zz")] } }],
         };
     }
+    // two sparse contexts that differ only in the contents of one equally long byte string: built and dropped in
+    // turn they receive the same memory from the allocator (the recycled-buffer phase uses them)
+    for v in [&b"ab"[..], &b"ba"[..]] {
+        let mut c = ctxs[0].clone();
+        for x in c.vals.iter_mut() {
+            *x = Val::nil();
+        }
+        c.vals[2] = Val::bytes(v);
+        ctxs.push(c);
+    }
     let w = World::new(specs.clone(), ctxs.clone());
     let id = |n: &str| Tok::Id { name: n.into() };
     let int = |x: i64| Tok::Int { v: limbs(x), txt: x.to_string() };
@@ -199,7 +209,7 @@ pub fn run(p: &Plan, threads: usize, rounds: usize, simd_expected: bool, id0: &m
     // have equal sizes, so that the allocator hands the same memory to different contents; a long-lived filter
     // must not remember anything about memory it has seen
     for _ in 0..60 {
-        for c in 0..nc.min(2) {
+        for c in (nc - 2)..nc {
             let fresh = build_ctx(scheme, &p.specs[0], &p.ctxs[c]);
             for f in 0..nf {
                 let r = std::panic::catch_unwind(std::panic::AssertUnwindSafe(|| filters[f].execute(&fresh)));
